@@ -361,3 +361,84 @@ func c10HeaviestTip(w *core.WorkerCtx) {
 	}
 	w.R.Count("c10_heaviest_tip_scenarios", 3)
 }
+
+// c10AfterTruncation: the sealing rules on nodes that have truncated their genesis vertex out of the live graph. Two
+// nodes grow a common chain of 1040 vertices, both truncate, and then the genesis wallet tries to spend - in a gossiped
+// vertex at the genesis node, in a proposal at the joined node - next to a self sealed and an empty offer.
+func c10AfterTruncation(w *core.WorkerCtx) {
+	rng := core.Rand(w.Seed, "C10trunc", w.Batch)
+	desc := fmt.Sprintf("c10 forbidden offers after the genesis vertex was checkpointed seed=%d batch=%d", w.Seed, w.Batch)
+	w.Mark("%s", desc)
+	world := ledger.NewWorld(rng, w.R, []string{"C10"}, allSnapOracles, desc)
+	defer world.Close()
+	if _, err := ledger.Setup(world, ledger.Profile{Nodes: 2, Users: 4, SupplyClass: 0, Delivery: "lockstep"}); err != nil {
+		w.R.Inconc("setup failed: " + err.Error())
+		return
+	}
+	a, b := world.Nodes[0], world.Nodes[1]
+	u := world.Users
+	world.Quiet = true
+	for i := 0; i < 1040; i++ {
+		t := world.NewTrx(u[0], u[1+i%3].Addr, spice.Melange{}, []byte(fmt.Sprintf("contract %d", i)))
+		v, err := world.Propose(a, &t, "grow")
+		if err == nil {
+			world.Deliver(b, &v, "net")
+		}
+	}
+	world.Quiet = false
+	world.Observe(a, ledger.OpInfo{Kind: "milestone", OK: true})
+	world.Observe(b, ledger.OpInfo{Kind: "milestone", OK: true})
+	for _, n := range []*ledger.Node{a, b} {
+		if err := world.Truncate(n); err != nil {
+			w.R.Inconc("truncation failed: " + err.Error())
+			return
+		}
+	}
+	_, genesisLive := a.Prev.Live[world.Genesis.Hash]
+	gen := a.Actor
+	for round := 0; round < 6; round++ {
+		n := []*ledger.Node{a, b}[round%2]
+		s := n.Prev
+		var tip ledger.H
+		var wgt uint64
+		for h := range s.Leaves {
+			if v, ok := s.Vertex(h); ok && v.Weight >= wgt {
+				tip, wgt = h, v.Weight
+			}
+		}
+		rule := []string{"genesis-wallet-spends", "genesis-wallet-spends", "self-sealed", "empty-transaction", "genesis-wallet-spends", "genesis-wallet-spends"}[round]
+		var err error
+		var hash ledger.H
+		entry := "gossip"
+		switch {
+		case rule == "genesis-wallet-spends" && n == b && round != 5:
+			// the joined node's own wallet is not the genesis wallet: only the genesis rule stands in the way
+			entry = "propose"
+			t := world.NewTrx(gen, u[1].Addr, spice.Melange{Currency: 1}, []byte("genesis wallet spends"))
+			var v accountant.Vertex
+			v, err = world.Propose(n, &t, "genesis wallet proposes after truncation")
+			hash = v.Hash
+		case rule == "genesis-wallet-spends":
+			t := world.NewTrx(gen, u[1].Addr, spice.Melange{Currency: 1}, nil)
+			v := ledger.ForgeVertex(world.Sealers[0], t, tip, tip, wgt+1, world.Now())
+			err = world.Deliver(n, &v, "genesis wallet spends in a gossiped vertex after truncation")
+			hash = v.Hash
+		case rule == "self-sealed":
+			t := world.NewTrx(world.Sealers[1], u[1].Addr, spice.Melange{}, []byte("self sealed"))
+			v := ledger.ForgeVertex(world.Sealers[1], t, tip, tip, wgt+1, world.Now())
+			err = world.Deliver(n, &v, "self sealed vertex after truncation")
+			hash = v.Hash
+		default:
+			t := world.NewTrx(u[1], u[2].Addr, spice.Melange{}, nil)
+			v := ledger.ForgeVertex(world.Sealers[0], t, tip, tip, wgt+1, world.Now())
+			err = world.Deliver(n, &v, "empty transaction after truncation")
+			hash = v.Hash
+		}
+		world.EvalFor("C10", 1)
+		world.NontrivFor("C10", fmt.Sprintf("after-truncation/%s/%s/node%d/genesis-still-live=%v/refused=%v", rule, entry, n.Idx, genesisLive, err != nil))
+		if _, held := n.Prev.Vertex(hash); err == nil && held {
+			world.Violate("C10", "accepted/"+rule+"/after-truncation", fmt.Sprintf("node %s, whose genesis vertex is checkpointed (still live: %v), admitted a %s offer through %s", n.Name, genesisLive, rule, entry))
+		}
+	}
+	w.R.Count("c10_after_truncation_scenarios", 1)
+}
